@@ -19,6 +19,7 @@ THEOREMS = [
     "Gwcs.Frames.duplicate_axes_rejected",
     "Gwcs.Frames.objects_get_own_axes",
     "Gwcs.Frames.objects_roundtrip",
+    "Gwcs.Frames.components_aligned",
     "Gwcs.Frames.pickFresh_not_mem",
     "Gwcs.Frames.rename_unique",
 ]
